@@ -4,9 +4,11 @@
 From Coq Require Import Arith List Bool String.
 From VQ Require Import Model.Layout Proofs.LayoutProofs.
 From VQ Require Import Glue.Pin_pat_vq_forward Glue.Pin_pat_vq_split Glue.Pin_pat_vq_decode Glue.Pin_pat_euclid_forward Glue.Pin_pat_cosine_forward Glue.Pin_pat_fsq_forward Glue.Pin_pat_fsq_decode Glue.Pin_pat_lfq_forward Glue.Pin_pat_lfq_decode Glue.Pin_pat_rvq_decode Glue.Pin_pat_simvq_forward.
-From VQ Require Import Model.Einops Glue.EinopsGlue.
+From VQ Require Import Model.Einops Glue.EinopsGlueBase Glue.EinopsGlueHeads Glue.EinopsGlueLayout Glue.EinopsGlueScalar.
 From VQ Require Import Proofs.EinopsProofs.
 Import ListNotations.
+
+(* implicit *)
 
 (* implicit *)
 
@@ -198,7 +200,7 @@ Theorem C10_src_img_in :
          (forall (e : env) (X : nat -> nat -> nat -> nat -> A) (b t c : nat),
           b < e "b" ->
           t < e "h" * e "w" -> c < e "c" -> @rearr A p e (@of4 A X) [b; t; c] = @img_in A (e "w") X b t c).
-Proof. exact (@EinopsGlue.einops_img_in). Qed.
+Proof. exact (@EinopsGlueLayout.einops_img_in). Qed.
 Print Assumptions C10_src_img_in.
 
 (* implicit *)
@@ -209,7 +211,7 @@ Theorem C10_src_cfirst_in :
          wf_rearrange p = true /\
          (forall (e : env) (X : nat -> nat -> nat -> A) (b n d : nat),
           b < e "b" -> n < e "n" -> d < e "d" -> @rearr A p e (@of3 A X) [b; n; d] = @cfirst_in A X b n d).
-Proof. exact (@EinopsGlue.einops_cfirst_in). Qed.
+Proof. exact (@EinopsGlueLayout.einops_cfirst_in). Qed.
 Print Assumptions C10_src_cfirst_in.
 
 (* implicit *)
@@ -224,7 +226,7 @@ Theorem C10_src_heads_shared_in :
           bh < e "b" * e "h" ->
           n < e "n" ->
           d < e "d" -> @rearr A p e (@of3 A X) [0; bh; n; d] = @heads_shared_in A (e "h") (e "d") X bh n d).
-Proof. exact (@EinopsGlue.einops_heads_shared_in). Qed.
+Proof. exact (@EinopsGlueHeads.einops_heads_shared_in). Qed.
 Print Assumptions C10_src_heads_shared_in.
 
 (* implicit *)
@@ -239,7 +241,7 @@ Theorem C10_src_heads_sep_in :
           h < e "h" ->
           b < e "b" ->
           n < e "n" -> d < e "d" -> @rearr A p e (@of3 A X) [h; b; n; d] = @heads_sep_in A (e "d") X h b n d).
-Proof. exact (@EinopsGlue.einops_heads_sep_in). Qed.
+Proof. exact (@EinopsGlueHeads.einops_heads_sep_in). Qed.
 Print Assumptions C10_src_heads_sep_in.
 
 (* implicit *)
@@ -250,7 +252,7 @@ Theorem C10_src_heads_sep_idx :
          wf_rearrange p = true /\
          (forall (e : env) (J : nat -> nat -> nat -> A) (b n h : nat),
           b < e "b" -> n < e "n" -> h < e "h" -> @rearr A p e (@of3 A J) [b; n; h] = @heads_sep_idx A J b n h).
-Proof. exact (@EinopsGlue.einops_heads_sep_idx). Qed.
+Proof. exact (@EinopsGlueHeads.einops_heads_sep_idx). Qed.
 Print Assumptions C10_src_heads_sep_idx.
 
 (* implicit *)
@@ -262,7 +264,7 @@ Theorem C10_src_heads_shared_idx :
          (forall (e : env) (J : nat -> nat -> A) (b n h : nat),
           b < e "b" ->
           n < e "n" -> h < e "h" -> @rearr A p e (@of1_2 A J) [b; n; h] = @heads_shared_idx A (e "h") J b n h).
-Proof. exact (@EinopsGlue.einops_heads_shared_idx). Qed.
+Proof. exact (@EinopsGlueHeads.einops_heads_shared_idx). Qed.
 Print Assumptions C10_src_heads_shared_idx.
 
 (* implicit *)
@@ -275,7 +277,7 @@ Theorem C10_src_img_idx_out :
           e "..." = 1 ->
           b < e "b" ->
           h < e "h" -> w < e "w" -> @rearr A p e (@of2 A J) [b; h; w; 0] = @img_idx_out A (e "w") J b h w).
-Proof. exact (@EinopsGlue.einops_img_idx_out). Qed.
+Proof. exact (@EinopsGlueLayout.einops_img_idx_out). Qed.
 Print Assumptions C10_src_img_idx_out.
 
 (* implicit *)
@@ -288,7 +290,7 @@ Theorem C10_src_heads_sep_out :
           b < e "b" ->
           n < e "n" ->
           x < e "h" * e "d" -> @rearr A p e (@of4 A Q) [b; n; x] = @heads_sep_out A (e "d") Q b n x).
-Proof. exact (@EinopsGlue.einops_heads_sep_out). Qed.
+Proof. exact (@EinopsGlueHeads.einops_heads_sep_out). Qed.
 Print Assumptions C10_src_heads_sep_out.
 
 (* implicit *)
@@ -302,7 +304,7 @@ Theorem C10_src_heads_shared_out :
           n < e "n" ->
           x < e "h" * e "d" ->
           @rearr A p e (@of1_3 A Q) [b; n; x] = @heads_shared_out A (e "h") (e "d") Q b n x).
-Proof. exact (@EinopsGlue.einops_heads_shared_out). Qed.
+Proof. exact (@EinopsGlueHeads.einops_heads_shared_out). Qed.
 Print Assumptions C10_src_heads_shared_out.
 
 (* implicit *)
@@ -313,7 +315,7 @@ Theorem C10_src_cfirst_out :
          wf_rearrange p = true /\
          (forall (e : env) (Q : nat -> nat -> nat -> A) (b d n : nat),
           b < e "b" -> d < e "d" -> n < e "n" -> @rearr A p e (@of3 A Q) [b; d; n] = @cfirst_out A Q b d n).
-Proof. exact (@EinopsGlue.einops_cfirst_out). Qed.
+Proof. exact (@EinopsGlueLayout.einops_cfirst_out). Qed.
 Print Assumptions C10_src_cfirst_out.
 
 (* implicit *)
@@ -326,7 +328,7 @@ Theorem C10_src_img_out :
           b < e "b" ->
           c < e "c" ->
           h < e "h" -> w < e "w" -> @rearr A p e (@of3 A Q) [b; c; h; w] = @img_out A (e "w") Q b c h w).
-Proof. exact (@EinopsGlue.einops_img_out). Qed.
+Proof. exact (@EinopsGlueLayout.einops_img_out). Qed.
 Print Assumptions C10_src_img_out.
 
 (* implicit *)
@@ -339,7 +341,7 @@ Theorem C10_src_fsq_split :
           b < e "b" ->
           n < e "n" ->
           c < e "c" -> d < e "d" -> @rearr A p e (@of3 A X) [b; n; c; d] = @cb_split A (e "d") X b n c d).
-Proof. exact (@EinopsGlue.einops_fsq_split). Qed.
+Proof. exact (@EinopsGlueScalar.einops_fsq_split). Qed.
 Print Assumptions C10_src_fsq_split.
 
 (* implicit *)
@@ -351,7 +353,7 @@ Theorem C10_src_fsq_merge :
          (forall (e : env) (Q : nat -> nat -> nat -> nat -> A) (b n x : nat),
           b < e "b" ->
           n < e "n" -> x < e "c" * e "d" -> @rearr A p e (@of4 A Q) [b; n; x] = @cb_merge A (e "d") Q b n x).
-Proof. exact (@EinopsGlue.einops_fsq_merge). Qed.
+Proof. exact (@EinopsGlueScalar.einops_fsq_merge). Qed.
 Print Assumptions C10_src_fsq_merge.
 
 (* implicit *)
@@ -364,7 +366,7 @@ Theorem C10_src_lfq_split :
           b < e "b" ->
           n < e "n" ->
           c < e "c" -> d < e "d" -> @rearr A p e (@of3 A X) [b; n; c; d] = @cb_split A (e "d") X b n c d).
-Proof. exact (@EinopsGlue.einops_lfq_split). Qed.
+Proof. exact (@EinopsGlueScalar.einops_lfq_split). Qed.
 Print Assumptions C10_src_lfq_split.
 
 (* implicit *)
@@ -376,7 +378,7 @@ Theorem C10_src_lfq_merge :
          (forall (e : env) (Q : nat -> nat -> nat -> nat -> A) (b n x : nat),
           b < e "b" ->
           n < e "n" -> x < e "c" * e "d" -> @rearr A p e (@of4 A Q) [b; n; x] = @cb_merge A (e "d") Q b n x).
-Proof. exact (@EinopsGlue.einops_lfq_merge). Qed.
+Proof. exact (@EinopsGlueScalar.einops_lfq_merge). Qed.
 Print Assumptions C10_src_lfq_merge.
 
 (* implicit *)
